@@ -78,6 +78,40 @@ def rule_key(ctx: Ctx) -> RuleReport:
                              line=m.node.lineno))
         else:
             rep.ok({"class": ci.name, "get_table": short(m.node.body[-1], 80)})
+    # extractor side: a grid row is never taken from the values of a dictionary keyed by document text
+    # the functions that turn worksheet rows into the grid (property anchors)
+    SHEETS = [(X + "ms_modern/xlsx_extractor.py", "_read_sheet_data"), (X + "ms_legacy/xls_extractor.py", "_read_content"), (X + "open_office/ods_extractor.py", "_extract_sheet")]
+    n_dicts = 0
+    for rel, q in SHEETS:
+        f0 = ctx.p.maybe_func(rel, q)
+        if f0 is None:
+            raise AnalysisError(f"C13-KEY: sheet reader {rel}::{q} vanished")
+        for fi in [f0]:
+            # local dicts whose keys are not constants: {headers[i]: ..} / d[header] = ..
+            keyed = set()
+            for n in walk_own(fi.node):
+                if isinstance(n, (ast.Assign, ast.AnnAssign)):
+                    tgt = n.targets[0] if isinstance(n, ast.Assign) and len(n.targets) == 1 else getattr(n, "target", None)
+                    val = n.value
+                    if isinstance(tgt, ast.Name) and isinstance(val, ast.DictComp) and not isinstance(val.key, ast.Constant):
+                        keyed.add(tgt.id)
+                    if isinstance(tgt, ast.Subscript) and isinstance(tgt.value, ast.Name) and not isinstance(tgt.slice, ast.Constant):
+                        # d[k] = v with a computed key; only dict-typed locals (initialised {} / dict())
+                        keyed.add(tgt.value.id)
+            dict_locals = {n.targets[0].id for n in walk_own(fi.node) if isinstance(n, ast.Assign) and len(n.targets) == 1 and isinstance(n.targets[0], ast.Name) and isinstance(n.value, (ast.Dict, ast.DictComp))}
+            dict_locals |= {n.target.id for n in walk_own(fi.node) if isinstance(n, ast.AnnAssign) and isinstance(n.target, ast.Name) and isinstance(n.value, (ast.Dict, ast.DictComp))}
+            keyed &= dict_locals
+            if not keyed:
+                continue
+            n_dicts += len(keyed)
+            rep.unit(fi.key)
+            bad = [n for n in walk_own(fi.node) if isinstance(n, ast.Call) and isinstance(n.func, ast.Attribute) and n.func.attr in ("values", "items", "keys") and isinstance(n.func.value, ast.Name) and n.func.value.id in keyed]
+            if bad:
+                rep.fail(Finding("C13-KEY", rel, fi.qual, short(bad[0], 60), f"a grid row is rebuilt from `{short(bad[0], 40)}` of a dictionary keyed by header text: two columns with the same (or an empty) header collapse, the row comes back shorter and shifted", line=bad[0].lineno))
+            else:
+                rep.ok({"fn": fi.qual, "header_keyed_dicts": sorted(keyed), "used_as": "records only"})
+    if n_dicts < 2:
+        raise AnalysisError(f"C13-KEY: only {n_dicts} header-keyed row dictionaries found in the sheet extractors (2 confirmed: xlsx record, xls row_dict)")
     return rep
 
 
